@@ -12,7 +12,7 @@
    that reordering independent statements of the source does not break them. *)
 From Coq Require Import String ZArith List Bool Lia ZifyBool.
 From Soc Require Import Lib.Bits Lib.Res Lib.PyVal.
-From Soc Require Model.Sram Proofs.Sram Model.WbCsrBridge Model.Actions.
+From Soc Require Model.Sram Proofs.Sram Model.WbCsrBridge Model.Actions Model.Mux Model.Gpio.
 From SocGen Require Import PeriphGen.
 Import ListNotations.
 Open Scope Z_scope.
@@ -67,6 +67,10 @@ Fixpoint ints (l : list pv) : list Z :=
 
 Lemma ints_map l : ints (map YInt l) = l.
 Proof. induction l as [|z l IH]; cbn [map ints]; [reflexivity | rewrite IH; reflexivity]. Qed.
+
+(* a pure result as a branch point of the decision tree *)
+Definition is_ok {A} (r : res A) : bool := match r with Ok _ => true | Err _ => false end.
+Definition err_of {A} (r : res A) : exn := match r with Ok _ => OtherError | Err e => e end.
 
 (* ================================================================ Part 1: the foreign classes, as specified *)
 
@@ -932,3 +936,382 @@ Qed.
 Print Assumptions tie_action_bad_shape.
 
 End ActTie.
+
+(* ================================================================ Part 5: gpio.Peripheral and its registers *)
+
+Module GpioTie.
+Module G := Soc.Model.Gpio.
+Import ActTie.
+
+(* ---- csr.Field(cls, args..).create() = cls(args..): the TRANSLATED constructor of the action
+   class is run (Part 4's world), and the port it builds gives the field's shape and access mode *)
+Definition no_rw (a b c : Z) : Z * bool := (0, false).
+Definition port_of (r : comp (pv * trace)) : option (pv * pv) :=
+  match run_comp (let* '(o, t) := r in aview o t) with
+  | Ok b => Some (b_shape b, b_access b)
+  | Err _ => None
+  end.
+Definition field_port (cls : pv) (args : list pv) (kw : list (string * pv)) : option (pv * pv) :=
+  let W := actW no_rw in
+  match cls with
+  | YGlobal s =>
+      match args with
+      | [sh] =>
+          if String.eqb s "csr.action.R" then port_of (gen_action_R_init W [EvNew "R"] (YObj "R" 0) sh)
+          else if String.eqb s "csr.action.W" then port_of (gen_action_W_init W [EvNew "W"] (YObj "W" 0) sh)
+          else if String.eqb s "csr.action.RW" then
+            port_of (gen_action_RW_init W [EvNew "RW"] (YObj "RW" 0) sh
+                       (match kw_get "init" kw with Some i => i | None => gen_action_RW_init_default_init end))
+          else None
+      | _ => None
+      end
+  | YCon f [YStr q; _; _] _ =>
+      if (if String.eqb f "class" then String.eqb q "Peripheral.Output._FieldAction" else false) then
+        match args with
+        | [] => port_of (gen_gpio_Peripheral_Output__FieldAction_init W [EvNew q] (YObj q 0))
+        | _ => None
+        end
+      else None
+  | _ => None
+  end.
+
+Definition shape_width (sh : pv) : option Z :=
+  match run_comp (shape_cast no_rw sh) with Ok (w, _) => Some w | Err _ => None end.
+
+(* (element width, some field readable, some field writable) of a field collection: csr/reg.py:493-510 *)
+Definition info : Type := (Z * bool * bool)%type.
+Definition add_info (a b : option info) : option info :=
+  match a, b with
+  | Some (w, r, x), Some (w', r', x') => Some (w + w', if r then true else r', if x then true else x')
+  | _, _ => None
+  end.
+Definition field_info (cls : pv) (args : list pv) (kw : list (string * pv)) : option info :=
+  match field_port cls args kw with
+  | Some (sh, YStr a) =>
+      match shape_width sh with
+      | Some w => Some (w, if String.eqb a "r" then true else String.eqb a "rw",
+                           if String.eqb a "w" then true else String.eqb a "rw")
+      | None => None
+      end
+  | _ => None
+  end.
+Fixpoint elem_info (v : pv) : option info :=
+  match v with
+  | YDict l =>
+      match l with
+      | [] => None
+      | _ => (fix go (l : list (pv * pv)) : option info :=
+                match l with [] => Some (0, false, false) | (_, x) :: l' => add_info (elem_info x) (go l') end) l
+      end
+  | YList l =>
+      match l with
+      | [] => None
+      | _ => (fix go (l : list pv) : option info :=
+                match l with [] => Some (0, false, false) | x :: l' => add_info (elem_info x) (go l') end) l
+      end
+  | YCon f (cls :: args) kw => if String.eqb f "csr.Field" then field_info cls args kw else None
+  | _ => None
+  end.
+
+(* the element access mode a csr.Register subclass declares in its class statement: (readable, writable) *)
+Definition cls_access (cls : pv) : option (bool * bool) :=
+  match cls with
+  | YCon _ _ kw =>
+      match kw_get "access" kw with
+      | Some (YStr a) =>
+          if String.eqb a "r" then Some (true, false) else if String.eqb a "w" then Some (false, true)
+          else if String.eqb a "rw" then Some (true, true) else None
+      | _ => None
+      end
+  | _ => None
+  end.
+
+(* csr.Register.__init__(fields) in a subclass declared with access=          amaranth_soc/csr/reg.py:461-512
+   None = accepted *)
+Definition reg_check (cls fields : pv) : option exn :=
+  match cls_access cls with
+  | None => Some ValueError
+  | Some (rd, wr) =>
+      match elem_info fields with
+      | None => Some TypeError
+      | Some (_, r, x) =>
+          if (if r then negb rd else false) then Some ValueError
+          else if (if x then negb wr else false) then Some ValueError else None
+      end
+  end.
+Definition reg_ok (cls fields : pv) : bool := match reg_check cls fields with None => true | Some _ => false end.
+Definition reg_exn (cls fields : pv) : exn := match reg_check cls fields with None => OtherError | Some e => e end.
+Definition reg_width (fields : pv) : Z := match elem_info fields with Some (w, _, _) => w | None => 0 end.
+
+(* is `cls` a class statement with first base `base`? *)
+Definition base_is (cls : pv) (base : string) : bool :=
+  match cls with
+  | YCon _ [_; YTuple (YGlobal b :: _); _] _ => String.eqb b base
+  | _ => false
+  end.
+
+(* the class statement and the arguments of the super().__init__ call made for the object slf *)
+Fixpoint find_super_cls (t : trace) (slf : pv) : option (pv * list pv) :=
+  match t with
+  | [] => None
+  | EvCall f args _ _ :: t' =>
+      match super_init f with
+      | Some (cls, s) => if ref_eqb s slf then Some (cls, args) else find_super_cls t' slf
+      | None => find_super_cls t' slf
+      end
+  | _ :: t' => find_super_cls t' slf
+  end.
+
+(* csr.Builder: the registers handed to add(), oldest first, as (element width, (readable, writable)) *)
+Fixpoint specs_of (t : trace) (adds : list (string * list pv * list (string * pv))) : list (Z * (bool * bool)) :=
+  match adds with
+  | [] => []
+  | (m, [_; reg], _) :: l =>
+      if String.eqb m "add" then
+        match find_super_cls t reg with
+        | Some (cls, [fields]) =>
+            match cls_access cls with
+            | Some acc => (reg_width fields, acc) :: specs_of t l
+            | None => specs_of t l
+            end
+        | _ => specs_of t l
+        end
+      else specs_of t l
+  | _ :: l => specs_of t l
+  end.
+Definition builder_specs (t : trace) (b : pv) : list (Z * (bool * bool)) := specs_of t (calls_on t b).
+
+(* csr.Builder(addr_width=, data_width=), granularity 8                        amaranth_soc/csr/reg.py:598-608 *)
+Definition spec_builder (t : trace) (kw : list (string * pv)) : comp pv :=
+  match kw_get "addr_width" kw, kw_get "data_width" kw with
+  | Some aw, Some dw =>
+      let* c := not_int_or aw CLe 0 in
+      Branch c (Raise TypeError) (
+      let* c := not_int_or dw CLe 0 in
+      Branch c (Raise TypeError) (
+      let* q := py_arith AFloorDiv dw (YInt 8) in
+      let* m := py_arith AMul q (YInt 8) in
+      let* e := py_eq dw m in
+      Branch e (Ret (YObj "csr.Builder" (tlen t))) (Raise ValueError)))
+  | _, _ => Raise TypeError
+  end.
+
+(* Builder.as_memory_map(): MemoryMap(addr_width, data_width) and one add_resource per register in insertion
+   order with implicit addresses - Model.Gpio.place (whose agreement with the memory-map model is proved in
+   Proofs/Gpio.v, and with Builder.as_memory_map's arithmetic in Gen/TieBuilder.v) *)
+Definition place_of (t : trace) (b : pv) : res (list Mux.reg) :=
+  match kw_get "addr_width" (kw_of t b), kw_get "data_width" (kw_of t b) with
+  | Some (YInt aw), Some (YInt dw) => G.place aw dw 0 (builder_specs t b)
+  | _, _ => Err OtherError
+  end.
+Definition spec_as_memory_map (t : trace) (b : pv) : comp pv :=
+  Branch (is_ok (place_of t b)) (Ret (YObj "MemoryMap" (tlen t))) (Raise (err_of (place_of t b))).
+
+(* the Builder whose as_memory_map() produced mm *)
+Definition builder_of (t : trace) (mm : pv) : option pv :=
+  match call_of t mm with
+  | Some (g, [], []) => meth_recv g "as_memory_map"
+  | _ => None
+  end.
+
+(* csr.Bridge(memory_map): a csr.Multiplexer over the registers of the map     amaranth_soc/csr/reg.py:778-793 *)
+Definition mux_of (t : trace) (mm : pv) : res Mux.cfg :=
+  match builder_of t mm with
+  | Some b =>
+      match kw_get "data_width" (kw_of t b), place_of t b with
+      | Some (YInt dw), Ok regs =>
+          match Mux.mk_cfg dw regs None with Some mc => Ok mc | None => Err OtherError end
+      | _, Err e => Err e
+      | _, _ => Err OtherError
+      end
+  | None => Err TypeError
+  end.
+Definition spec_bridge (t : trace) (args : list pv) : comp pv :=
+  match args with
+  | [mm] => Branch (is_ok (mux_of t mm)) (Ret (YObj "csr.Bridge" (tlen t))) (Raise (err_of (mux_of t mm)))
+  | _ => Raise TypeError
+  end.
+
+(* csr.Signature(addr_width=, data_width=)                                      amaranth_soc/csr/bus.py *)
+Definition spec_csr_signature (t : trace) (kw : list (string * pv)) : comp pv :=
+  match kw_get "addr_width" kw, kw_get "data_width" kw with
+  | Some aw, Some dw =>
+      let* c := not_int_or aw CLe 0 in
+      Branch c (Raise TypeError) (
+      let* c := not_int_or dw CLe 0 in
+      Branch c (Raise TypeError) (Ret (YObj "csr.Signature" (tlen t))))
+  | _, _ => Raise TypeError
+  end.
+
+Definition gp_call (t : trace) (f : pv) (args : list pv) (kw : list (string * pv)) : comp pv :=
+  if is_glob f "csr.Builder" then spec_builder t kw
+  else if is_glob f "csr.Bridge" then spec_bridge t args
+  else if is_glob f "csr.Signature" then spec_csr_signature t kw
+  else match super_init f with
+  | Some (cls, _) =>
+      if base_is cls "csr.Register" then
+        match args with
+        | [fields] => Branch (reg_ok cls fields) (Ret YNone) (Raise (reg_exn cls fields))
+        | _ => Raise TypeError
+        end
+      else Ret YNone                   (* wiring.Signature.__init__(members) / wiring.Component.__init__(members) *)
+  | None =>
+  match meth_recv f "add", meth_recv f "as_memory_map", meth_recv f "array" with
+  | Some b, _, _ => match args with [_; reg] => Ret reg | _ => Raise TypeError end      (* Builder.add returns reg *)
+  | _, Some b, _ => spec_as_memory_map t b
+  | _, _, Some m => Ret (YCon "array" (m :: args) [])                                   (* Out(sig).array(n) *)
+  | _, _, _ => Raise OtherError
+  end end.
+
+Definition gpW : world :=
+  {| w_call := gp_call; w_get := get_plain; w_set := fun _ _ _ _ => Ret tt;
+     w_isinstance := fun _ _ _ => Raise OtherError |}.
+
+Definition force (r : res Mux.cfg) : Mux.cfg :=
+  match r with Ok m => m | Err _ => {| Mux.c_dw := 0; Mux.c_regs := []; Mux.c_Sr := 0; Mux.c_Sw := 0 |} end.
+
+(* ---- arguments *)
+Definition inj (a : pyint) : pv := match a with VInt z => YInt z | VNone => YNone | VBad => YBad end.
+Definition slf : pv := YObj "Peripheral" 0.
+Definition tr0 : trace := [EvNew "Peripheral"].
+Definition run (p : G.params) : comp (pv * trace) :=
+  gen_gpio_Peripheral_init gpW tr0 slf (inj (G.p_pins p)) (inj (G.p_aw p)) (inj (G.p_dw p)) (inj (G.p_stages p)).
+
+(* ---- the configuration of the constructed peripheral, read off the trace: pin count and stages as stored, the
+   widths the Builder was given, the multiplexer of the Bridge held in self._bridge *)
+Definition view (t : trace) : comp G.cfg :=
+  let* pins := getZ (last_set t slf "_pin_count") in
+  let* st := getZ (last_set t slf "_input_stages") in
+  match last_set t slf "_bridge" with
+  | Some br =>
+      match call_of t br with
+      | Some (f, [mm], _) =>
+          if is_glob f "csr.Bridge" then
+            match builder_of t mm with
+            | Some b =>
+                let* aw := getZ (kw_get "addr_width" (kw_of t b)) in
+                let* dw := getZ (kw_get "data_width" (kw_of t b)) in
+                Branch (is_ok (mux_of t mm))
+                  (Ret {| G.g_pins := Z.to_nat pins; G.g_stages := Z.to_nat st; G.g_aw := aw; G.g_dw := dw;
+                          G.g_mux := force (mux_of t mm) |})
+                  (Raise (err_of (mux_of t mm)))
+            | None => Raise OtherError
+            end
+          else Raise OtherError
+      | _ => Raise OtherError
+      end
+  | None => Raise OtherError
+  end.
+
+(* ---- n equal fields under the key "pin" *)
+Definition elem_w (x : pv) : Z := match elem_info x with Some (w, _, _) => w | None => 0 end.
+Definition elem_ok (cls x : pv) : bool :=
+  match cls_access cls, elem_info x with
+  | Some (rd, wr), Some (_, r, a) => (if r then rd else true) && (if a then wr else true)
+  | _, _ => false
+  end.
+
+Definition sum_infos (l : list pv) : option info :=
+  fold_right (fun x acc => add_info (elem_info x) acc) (Some (0, false, false)) l.
+
+Lemma go_list l :
+  (fix go (l : list pv) : option info :=
+     match l with [] => Some (0, false, false) | x :: l' => add_info (elem_info x) (go l') end) l = sum_infos l.
+Proof. unfold sum_infos. induction l as [|y l IH]; [reflexivity|]. cbn [fold_right]. rewrite <- IH. reflexivity. Qed.
+
+Lemma elem_info_list l : elem_info (YList l) = match l with [] => None | _ => sum_infos l end.
+Proof. destruct l as [|x l]; [reflexivity|]. exact (go_list (x :: l)). Qed.
+
+Lemma sum_repeat x k w r a : elem_info x = Some (w, r, a) -> (0 < k)%nat ->
+  sum_infos (repeat x k) = Some (w * Z.of_nat k, r, a).
+Proof.
+  intros E Hk. induction k as [|k IH]; [lia|]. cbn [repeat sum_infos fold_right]. fold (sum_infos (repeat x k)).
+  destruct k as [|k'].
+  - cbn [repeat sum_infos fold_right]. rewrite E. cbn [add_info]. destruct r, a; do 3 f_equal; lia.
+  - rewrite IH by lia. rewrite E. cbn [add_info]. destruct r, a; do 3 f_equal; lia.
+Qed.
+
+Lemma elem_info_pins x k : (0 < k)%nat ->
+  elem_info (YDict [(YStr "pin", YList (repeat x k))]) =
+  match elem_info x with Some (w, r, a) => Some (w * Z.of_nat k, r, a) | None => None end.
+Proof.
+  intros Hk.
+  change (elem_info (YDict [(YStr "pin", YList (repeat x k))]))
+    with (add_info (elem_info (YList (repeat x k))) (Some (0, false, false))).
+  rewrite elem_info_list.
+  destruct k as [|k']; [lia|]. cbn [repeat]. change (x :: repeat x k') with (repeat x (S k')).
+  destruct (elem_info x) as [[[w r] a]|] eqn:E.
+  - rewrite (sum_repeat x (S k') w r a E Hk). cbn [add_info]. destruct r, a; do 3 f_equal; lia.
+  - cbn [repeat sum_infos fold_right]. rewrite E. reflexivity.
+Qed.
+
+Lemma reg_ok_pins cls x k : (0 < k)%nat -> elem_ok cls x = true ->
+  reg_ok cls (YDict [(YStr "pin", YList (repeat x k))]) = true.
+Proof.
+  intros Hk H. unfold reg_ok, reg_check. rewrite elem_info_pins by exact Hk. unfold elem_ok in H.
+  destruct (cls_access cls) as [[rd wr]|]; [|discriminate H].
+  destruct (elem_info x) as [[[w r] a]|]; [|discriminate H].
+  destruct r, a, rd, wr; try discriminate H; reflexivity.
+Qed.
+
+Lemma reg_width_pins x k : (0 < k)%nat ->
+  reg_width (YDict [(YStr "pin", YList (repeat x k))]) = elem_w x * Z.of_nat k.
+Proof.
+  intros Hk. unfold reg_width, elem_w. rewrite elem_info_pins by exact Hk.
+  destruct (elem_info x) as [[[w r] a]|]; reflexivity.
+Qed.
+
+Ltac norm := lazy beta iota zeta delta [
+  cbind run_comp fcall fset fnew tlen w_call w_get w_set w_isinstance
+  ref_eqb kw_get last_set call_of calls_of num mknum py_is_none py_is_int py_is_str py_is_bool py_is_range py_is_dict
+  py_is_list py_is_tuple not_numbers py_arith py_neg py_invert py_cmp py_eq_opt py_eq py_truth index_of py_range
+  nums in_list py_in py_len py_iter py_count py_const_comp py_repeat dict_lookup dict_str py_getitem py_max py_min
+  py_exact_log2 py_ceil_log2
+  String.eqb Ascii.eqb Bool.eqb Nat.eqb negb andb orb fst snd List.app
+  is_glob meth_recv super_init obj_is get_plain kw_or_none calls_on kw_of not_int_or getZ getB port_signature
+  cls_access base_is find_super_cls specs_of builder_specs spec_builder place_of spec_as_memory_map builder_of
+  mux_of spec_bridge spec_csr_signature gp_call gpW inj slf tr0 run view
+  gen_gpio_Peripheral_init gen_gpio_Peripheral_class gen_gpio_Peripheral_init_default_input_stages
+  gen_gpio_Peripheral_Mode_init gen_gpio_Peripheral_Mode_class gen_gpio_Peripheral_Input_init
+  gen_gpio_Peripheral_Input_class gen_gpio_Peripheral_Output_init gen_gpio_Peripheral_Output_class
+  gen_gpio_Peripheral_Output__FieldAction_class gen_gpio_Peripheral_SetClr_init gen_gpio_Peripheral_SetClr_class
+  gen_gpio_PinSignature_init gen_gpio_PinSignature_class gen_gpio_PinMode_class
+  G.ctor G.posint G.nonneg G.zof G.p_pins G.p_aw G.p_dw G.p_stages G.reg_specs ].
+Ltac norm2 := lazy beta iota zeta delta [is_ok err_of force negb andb orb run_comp].
+Ltac eval_elem_w :=
+  repeat match goal with
+         | |- context [elem_w ?x] => let v := eval vm_compute in (elem_w x) in change (elem_w x) with v
+         end.
+Ltac leaf := first [ reflexivity | exfalso; lia ].
+
+(* the four register constructors with n > 0 pins: accepted by csr.Register.__init__, element widths 2n, n, n, 2n *)
+Ltac registers n Hn :=
+  let Hk := fresh "Hk" in let Ek := fresh "Ek" in
+  assert (Hk : (0 < Z.to_nat (range_len 0 n 1))%nat) by (rewrite range_len_simple; lia);
+  assert (Ek : Z.of_nat (Z.to_nat (range_len 0 n 1)) = n) by (rewrite range_len_simple; lia);
+  rewrite !reg_ok_pins by (exact Hk || (vm_compute; reflexivity));
+  rewrite !reg_width_pins by exact Hk; rewrite !Ek;
+  eval_elem_w; rewrite ?Z.mul_1_l.
+
+(* gpio.Peripheral.__init__ = Model.Gpio.ctor for ALL arguments (each of pin_count, addr_width, data_width,
+   input_stages an int, None, or not an int): same refusals in the same order with the same exception class
+   (pin_count, input_stages by the constructor itself; addr_width, data_width, the granularity rule by csr.Builder;
+   a layout that does not fit by Builder.as_memory_map), and on acceptance the same configuration: the registers
+   Mode, Input, Output, SetClr - in this order, with element widths 2n, n, n, 2n and access rw, r, rw, w as computed
+   from the field dictionaries the translated register classes hand to csr.Register and the ports the translated
+   action classes build - placed by Model.Gpio.place, under the multiplexer Model.Mux.mk_cfg gives. *)
+Theorem tie_gpio_ctor : forall p, run_comp (let* '(_, t) := run p in view t) = G.ctor p.
+Proof.
+  intros [pins aw dw stages].
+  destruct pins as [n| |]; [|reflexivity|reflexivity].
+  destruct stages as [st| |]; [|norm; destruct (0 <? n); reflexivity..].
+  destruct aw as [a| |], dw as [d| |]; norm.
+  2-9: split_all; leaf.
+  destruct (0 <? n) eqn:Hn; [|reflexivity].
+  registers n Hn. norm2.
+  destruct (G.place a d 0 _) as [regs|e] eqn:P; norm2;
+    [destruct (Mux.mk_cfg d regs None) as [mc|] eqn:M; norm2 |]; split_all; leaf.
+Qed.
+Print Assumptions tie_gpio_ctor.
+
+End GpioTie.
